@@ -25,6 +25,7 @@ def histories(rng, tier):
     for n in (0, 1, 2):
         hs.append((n + 1, [("new", n), ("dump",), ("sample", 10)]))
     hs.append((5, [("with", 3, 1), ("apply", ("h", 6)), ("dump",), ("sample", 7)]))
+    hs.append((6, [("new", 1), ("apply", ("h", 1)), ("dump",), ("sample", 1 << 63)]))        # F23
     for n in range(0, 7):
         states = [("with", n, rng.randrange(1 << n) if n else 0)]
         for k in (1, 2, 3):
@@ -40,6 +41,21 @@ def histories(rng, tier):
                         acts.insert(1, ("apply", ("h", rng.randrange(1, 1 << n))))
                     acts.append(("sample", c))
                     hs.append((rng.randrange(1 << 30), acts))
+    # shot counts at the edge of the machine word (2^53 and beyond: the count is no longer exact as a float; 2^63 and
+    # beyond: it no longer fits a signed word) on small registers in basis, uniform and skewed states
+    for n in (0, 1, 2, 3):
+        full = (1 << n) - 1
+        for c in ((1 << 53) + 1, (1 << 62) + 12345, (1 << 63) - 1, 1 << 63, (1 << 63) + 7, (1 << 64) - 2, (1 << 64) - 1):
+            preps = [[("new", n)], [("new", n), ("apply", ("h", full))]]
+            if n >= 2:
+                preps.append([("with", n, 1), ("apply", ("ry", 0.3, 2)), ("apply", ("h", 1))])
+            for pre in preps:
+                if tier == "quick" and rng.random() < 0.4:
+                    continue
+                acts = list(pre) + [("dump",), ("sample", c)]
+                if rng.random() < 0.2:
+                    acts.insert(1, ("threads", 2))
+                hs.append((rng.randrange(1 << 30), acts))
     # registers with a past (grown, shrunk, regrown, multiplied, measured before): many small-count histograms each,
     # so that both correction branches (deficit and surplus) are taken
     def observe(r, n):
